@@ -4,6 +4,7 @@ CONSTANTS
   CalVals <- CV_Full
   Ls <- L_12
   Export = TRUE
+  Canonical = FALSE
   Variant = "code"
 CONSTRAINT ExportDone
 INVARIANT ExactlyOne
